@@ -1197,8 +1197,9 @@ class CallMixin:
                             if hasattr(v, extra):
                                 setattr(n, extra, getattr(v, extra))  # same elements in the same order: same bounds
                         return n
-                    if isinstance(v, ListV):
-                        cp = AbsList(v.elem, self.list_minlen(v))
+                    if isinstance(v, (ListV, AbsList)):
+                        from .interp_expr import _prov_list
+                        cp = AbsList(v.elem, self.list_minlen(v), _prov_list(v))  # same items in the same order
                         cp.created_in = self._frame_id()  # type: ignore[attr-defined]
                         cp.copy_of = v  # type: ignore[attr-defined]  # a shallow copy: same elements, same length, a list of its own
                         return cp
@@ -1273,6 +1274,8 @@ class CallMixin:
                     return Sym("set", tuple(key_to_val(k) for k in src.items))
                 if isinstance(src, Const) and isinstance(src.v, (frozenset, set, tuple, list)):
                     return Sym("set", tuple(Const(x) for x in (sorted(src.v, key=repr) if isinstance(src.v, (set, frozenset)) else src.v)))
+                if isinstance(src, Const) and isinstance(src.v, str):
+                    return Sym("set", tuple(Const(x) for x in sorted(set(src.v))))  # the characters of a constant text
             return Sym("set", tuple(self.concrete_items(a[0]) or [Sym("elemof", a[0])]) if a else ())
         if name == "getattr" and len(a) >= 2:
             return self.builtin_getattr(a, module, node)
@@ -1648,6 +1651,9 @@ class CallMixin:
                 if isinstance(ssep, str) and ssep and repr(seq.elem) == repr(Sym("splitpart", sbase, ssep, hint="str")):
                     s2 = Str(to_str_parts(sbase, (("replace", ssep, sep.v),)))
                     return Const(s2.const()) if s2.is_const() else s2
+            if isinstance(seq, MapV) and getattr(seq, "_charmap", None) and isinstance(sep, Const) and sep.v == "":
+                # "".join(c * 2 if c in CHARS else c for c in text)  ==  text with each of CHARS doubled (disjoint single characters: any order)
+                return Str(to_str_parts(seq.over, tuple(("replace", c, c + c) for c in seq._charmap)))
             if isinstance(seq, (MapV, ListV, AbsList)):
                 return Str([("join", sep, seq.elem, seq.over if isinstance(seq, MapV) else seq)])
             return Str([("join", sep, Sym("elemof", seq), seq)])
@@ -1693,6 +1699,7 @@ class CallMixin:
         if name == "split":
             sep = a[0].v if a and isinstance(a[0], Const) else None
             res = AbsList(Sym("splitpart", base, sep, hint="str"), 1)
+            res.created_in = self._frame_id()  # type: ignore[attr-defined]  # str.split always returns a list of its own
             if len(a) == 1 and not kwargs:
                 res._split_of = (base, sep)  # type: ignore[attr-defined]
             return res
